@@ -216,8 +216,12 @@ pub(crate) fn collect_and_prepare<S: IndexedFull>(
             .find_map(Result::ok)
     };
 
-    let mut process_existing =
-        |walker: &mut walkdir::IntoIter, entry: &DirEntry| -> RusticResult<Option<DirEntry>> {
+    // `replace` is set for an existing entry which is in the way of a snapshot entry: it is removed
+    // even if `delete` is not set
+    let mut process_existing = |walker: &mut walkdir::IntoIter,
+                                entry: &DirEntry,
+                                replace: bool|
+     -> RusticResult<Option<DirEntry>> {
             if entry.depth() == 0 {
                 // don't process the root dir which should be existing
                 return Ok(next_entry(walker));
@@ -230,7 +234,7 @@ pub(crate) fn collect_and_prepare<S: IndexedFull>(
             } else {
                 stats.files.additional += 1;
             }
-            match (opts.delete, dry_run, is_dir) {
+            match (opts.delete || replace, dry_run, is_dir) {
                 (true, true, true) => {
                     info!(
                         "would have removed the additional dir: {}",
@@ -350,25 +354,45 @@ pub(crate) fn collect_and_prepare<S: IndexedFull>(
             (None, None) => break,
 
             (Some(destination), None) => {
-                next_dst = process_existing(&mut walker, destination)?;
+                next_dst = process_existing(&mut walker, destination, false)?;
             }
             (Some(destination), Some((path, node))) => {
                 match destination.path().cmp(&dest.path(path)) {
                     Ordering::Less => {
-                        next_dst = process_existing(&mut walker, destination)?;
+                        next_dst = process_existing(&mut walker, destination, false)?;
                     }
                     Ordering::Equal => {
                         // process existing node
-                        if (node.is_dir() && !destination.file_type().is_dir())
-                            || (node.is_file() && !destination.file_type().is_file())
-                            || node.is_special()
-                        {
-                            // if types do not match, first remove the existing file
-                            next_dst = process_existing(&mut walker, destination)?;
-                        } else {
+                        let file_type = destination.file_type();
+                        let same_type = match node.node_type {
+                            NodeType::Dir => file_type.is_dir(),
+                            NodeType::File => file_type.is_file(),
+                            NodeType::Symlink { .. } => file_type.is_symlink(),
+                            _ => {
+                                !file_type.is_dir()
+                                    && !file_type.is_file()
+                                    && !file_type.is_symlink()
+                            }
+                        };
+                        let exists = if same_type && !node.is_special() {
                             next_dst = next_entry(&mut walker);
-                        }
-                        process_node(path, node, true)?;
+                            true
+                        } else if same_type || opts.delete {
+                            // Special files are always created anew. An existing entry of another
+                            // type is only replaced if `delete` is given.
+                            next_dst = process_existing(&mut walker, destination, true)?;
+                            false
+                        } else {
+                            // Writing to or below an existing entry of another type (e.g. a symlink
+                            // where the snapshot has a file or dir) does not restore the snapshot
+                            // and can modify files outside of the destination.
+                            return Err(RusticError::new(
+                                ErrorKind::InputOutput,
+                                "The destination entry `{path}` has another type than in the snapshot. Remove it or use the delete option to replace it.",
+                            )
+                            .attach_context("path", destination.path().display().to_string()));
+                        };
+                        process_node(path, node, exists)?;
                         next_node = node_streamer.next().transpose()?;
                     }
                     Ordering::Greater => {
